@@ -760,6 +760,49 @@ def check_absent_prefix(ctx, rep):
                           match_keys={"kind": "recursive-absent-string-prefix"})
 
 
+def check_successive_selections(ctx, rep):
+    """two selective extractions in ONE read session without reset(), the selections lying in different folders (which works on
+    the unchanged tree): each call has to deliver exactly its own targets -- nothing of the earlier selection again"""
+    import io
+    import random as _r
+    import py7zr
+    from harness import arch
+    rng = _r.Random(ctx["seed"])
+    reported = False
+    for i in range(6 if ctx["tier"] == "quick" else 60):
+        nf = rng.choice([2, 3, 4])
+        sessions, contents = [], {}
+        for f in range(nf):
+            ms = []
+            for k in range(rng.choice([1, 2, 3])):
+                nm = "f%d/m%d" % (f, k)
+                d = arch.pattern_bytes(rng, rng.choice([1, 20, 300]), "text")
+                ms.append((nm, d))
+                contents[nm] = d
+            sessions.append(ms)
+        chain = rng.choice(["copy", "lzma2", "deflate"])
+        data = arch.make_archive(sessions[0], chain, sessions=[(ms, chain) for ms in sessions[1:]])
+        order = list(range(nf))
+        rng.shuffle(order)
+        picks = [[rng.choice(sessions[f])[0]] if rng.random() < 0.6 else [m[0] for m in sessions[f]] for f in order]
+        got, exc = [], None
+        try:
+            with py7zr.SevenZipFile(io.BytesIO(data), "r") as z:
+                for T in picks:
+                    fac = arch.Collect()
+                    z.extract(targets=list(T), factory=fac)
+                    got.append(dict(fac.as_list()))
+        except Exception as e:  # noqa
+            exc = "%s: %s" % (type(e).__name__, str(e)[:100])
+        want = [{n: contents[n] for n in T} for T in picks]
+        rep.count(("successive", i, chain, repr(picks)), nontrivial=True)
+        if (exc is not None or got != want) and not reported:
+            reported = True
+            rep.violation("successive extract(targets=...) calls on one session, one folder each %r: delivered %r (exception %r), each call "
+                          "has to deliver exactly its targets" % (picks, [sorted(g) for g in got], exc),
+                          {"kind": "successive", "archive": data.hex(), "picks": picks}, match_keys={"kind": "successive-selections"})
+
+
 # ------------------------------------------------------------------ entry points
 def run(ctx):
     rep, tier = ctx["rep"], ctx["tier"]
@@ -806,6 +849,12 @@ def run(ctx):
                 rep.sample({"archive": res["label"], "cases": len(res["cases"])})
     rep.extra["archives"] = len(jobs)
     rep.extra["gap_layout_archives_misbehaving"] = gap_found
+    try:
+        check_successive_selections(ctx, rep)
+    except Exception as e:  # noqa
+        import traceback
+        rep.violation("check_successive_selections raised %s: %s" % (type(e).__name__, e),
+                      {"kind": "harness", "trace": traceback.format_exc()[-800:]}, concrete=False, match_keys={"kind": "harness"})
 
 
 def replay(d):
